@@ -106,7 +106,7 @@ class Gen:
         if k == 7:
             return 'substring(%s, %s)' % (rng.choice(cols), self.atom(cols))
         if k == 8:
-            return 'abs(%s)' % e()
+            return rng.choice(['abs(%s)', 'count(distinct %s)', 'extract(year from %s)', 'max(%s)']) % e()
         if k == 9:
             return '(%s)' % e()
         return 'concat(%s, %s, %s)' % (e(), e(), e())
@@ -133,7 +133,10 @@ class Gen:
         if k == 4:
             return 'not %s = %s' % (rng.choice(cols), self.atom(cols))
         if k == 5:
-            return '%s like %s' % (rng.choice(cols), self.atom(cols))
+            return rng.choice(['%s like %s' % (rng.choice(cols), self.atom(cols)), '%s is null' % self.atom(cols), '%s like %s' % (self.atom(cols), "'x%'"),
+                               '(%s, %s) in ((%s, %s))' % (rng.choice(cols), rng.choice(cols), self.atom(cols), self.atom(cols)),
+                               '(%s, %s) in ((1, 2))' % (self.atom(cols), self.atom(cols)), '%s in %s' % (rng.choice(cols), MARK),
+                               '%s is %s' % (rng.choice(cols), rng.choice([MARK, 'null', 'not null']))])
         return '%s %s %s' % (e(), rng.choice(['=', '>', '<', '>=', '<>']), e())
 
     # ---- statement shapes: each returns (chunks, catalog)
@@ -165,8 +168,25 @@ class Gen:
     def statement(self):
         rng = self.rng
         depth = rng.choice([0, 1, 1, 2, 2, 3])
-        k = rng.randrange(26)
+        k = rng.randrange(30)
         cols = ['a', 'b', 'c', 'd']
+        if k == 26:  # CREATE TABLE ... (SELECT ...)
+            ch = [('m', 'create table int.t9 (select '), ('m', self.expr(cols, min(depth, 1))), ('o', ', ' + self.atom(cols)), ('m', ' from int2.t2 where '),
+                  ('m', self.cond(cols, depth)), ('m', ')')]
+            return ch, 'two'
+        if k == 27:  # selects without FROM, UNION of them
+            ch = [('m', 'select '), ('m', self.atom([])), ('o', ', ' + self.atom([])), ('o', ' union select %s, %s' % (self.atom([]), self.atom([])))]
+            return ch, rng.choice(['one', 'two'])
+        if k == 28:  # outer joins, placeholders in ON and in IS
+            jt = rng.choice(['left join', 'right join', 'full join', 'inner join'])
+            ch = [('m', 'select t1.a, t2.b from int.t1 as t1 %s int2.t2 as t2 on t1.id = ' % jt), ('m', rng.choice([MARK, 't2.id'])),
+                  ('o', ' and t2.k > ' + self.atom(['t1.a'])), ('o', ' where ' + self.cond(['t1.a', 't2.b'], min(depth, 1))),
+                  ('o', ' order by %s desc, t1.a' % self.atom(['t2.b']))]
+            return ch, 'two'
+        if k == 29:  # GROUP BY / HAVING / ORDER BY with several items
+            ch = [('m', 'select a, max(d) from int.t1 where b = '), ('m', self.atom(cols)), ('m', ' group by %s, a' % self.atom(cols)),
+                  ('o', ' having max(d) > %s and min(c) < %s' % (self.atom(cols), self.atom(cols))), ('o', ' order by %s, a desc' % self.atom(cols))]
+            return ch, rng.choice(['one', 'two'])
         if k in (24, 25):  # a sub-select (named columns or star) joined with a model
             tl = rng.choice(['*', 'a, b', 'a, b as bb, c', 'a, x'])
             ch = [('m', 'select s.a, m.p from (select %s from int.t1 where ' % tl), ('m', self.cond(cols, min(depth, 1))),
